@@ -78,9 +78,11 @@ def sklearn_reference(reg, ts, lda, idnt, names=None):
     use_lda = (not tree) if lda is None else bool(lda)
     steps = ([] if tree else [StandardScaler()]) + ([LinearDiscriminantAnalysis()] if use_lda else []) + \
         [cl(**copy.deepcopy(kw))]
+    # (rating classes are the integers 0..10; any other response - e.g. -1 for an unrated curve - carries no weight)
     w = np.zeros(len(y))
     for v in np.unique(y):
-        w[y == v] = 1.0 / np.sum(y == v)
+        if v in range(11):
+            w[y == v] = 1.0 / np.sum(y == v)
     w /= w.sum()
     pipe = make_pipeline(*steps)
     pipe.fit(X, y, **{pipe.steps[-1][0] + "__sample_weight": w})
@@ -164,6 +166,20 @@ def state_classes(cid):
         except BaseException:  # noqa
             pass
         out.append(("failed-call", w))
+        # successful fits whose (fixed) contact point leaves exactly 0, 1, 2 or 3 approach samples in front of it (a
+        # curve recorded without a baseline): the baseline features are undefined there - a rating of -1, never an error
+        for k_ in (0, 1, 2, 3):
+            w = histlib.fresh(cid)
+            w.apply_preprocessing(["compute_tip_position", "correct_tip_offset"])
+            x_ = np.asarray(w["tip position"])[np.asarray(w["segment"]) == 0]
+            cp_ = float(x_[0] + abs(x_[0] - x_[1])) if k_ == 0 else float(0.5 * (x_[k_ - 1] + x_[k_]))
+            p_ = w.get_initial_fit_parameters(model_key="hertz_para")
+            p_["contact_point"].set(value=cp_, vary=False)
+            try:
+                w.fit_model(model_key="hertz_para", params_initial=p_)
+            except BaseException:  # noqa
+                pass
+            out.append((f"fitted-{k_}-baseline-samples", w))
     return out
 
 
@@ -349,6 +365,16 @@ def run(ctx):
                     Xd[r, g.integers(Xd.shape[1])] = np.nan          # zero-rated, NaN in varying features
                 for r in rows[14:18]:
                     Xd[r, g.integers(Xd.shape[1])] = np.nan
+                # unrated samples (response -1) sitting exactly where the rated curve is in feature space: they carry
+                # no weight and must not pull the rating out of 0..10
+                from nanite.rate.features import IndentationFeatures as _IF0
+                with warnings.catch_warnings(), np.errstate(all="ignore"):
+                    warnings.simplefilter("ignore")
+                    fv0 = np.asarray(_IF0.compute_features(dict(state_classes(2))["fitted"], which_type="continuous"),
+                                     dtype=float)
+                if np.all(np.isfinite(fv0)) and fv0.size == Xd.shape[1]:
+                    Xd = np.vstack([Xd, np.tile(fv0, (4, 1))])
+                    yd = np.concatenate([yd, -np.ones(4)])
             else:
                 yd = np.round(10 - yd)                                # unlike the shipped set of that name
             for j, n in enumerate(names):
